@@ -59,7 +59,7 @@ func apply(m *ref.VM, log []rec.Call) {
 func H_Registers() {
 	n := counts[vp.Choice("n", 6)] // 0..58 stops (accepted counts)
 	csel, nsel := vp.U8("csel")%64, vp.U8("nsel")%64
-	vp.Assume(!(vp.And(csel >= 10, int(csel) < 10+n)))          // CSEL outside the stop range
+	vp.Assume(!(vp.And(csel >= 10, int(csel) < 10+n)))            // CSEL outside the stop range
 	vp.Assume(!(vp.And(int(csel)+64 >= 10, int(csel)+64 < 10+n))) // also after wrap-around (10+n can reach 68)
 	var d rec.Dest
 	d.SetCSel(csel)
